@@ -108,3 +108,140 @@ pub fn build_bpe(
     })
     .map_err(|e| format!("{e}"))
 }
+
+/// Token ids as `[id >> 16, id & 0xffff]` pairs (TLC integers are 32-bit; u32 ids up to
+/// 2^32 - 1 are compared as pairs of small integers).
+pub fn ids_hl_json(b: &[u32]) -> Value {
+    Value::Array(b.iter().map(|x| json!([x >> 16, x & 0xffff])).collect())
+}
+
+pub fn id_hl(x: u32) -> Value {
+    json!([x >> 16, x & 0xffff])
+}
+
+/// A seeded, injective assignment of token ids for an explicit vocabulary.
+pub struct IdPlan {
+    pub scheme: String,
+    pub byte_ids: [u32; 256],
+    /// id of the product of merge entry i (entries with the same product share an id)
+    pub product_ids: Vec<u32>,
+}
+
+/// Anchors of the id space: ids are placed at / just above these values, or just below the two
+/// "top" anchors (2^31 and the largest `TokenId`).
+const ANCHORS: &[(u32, &str)] = &[
+    (0, "0"),
+    (1 << 8, "2^8"),
+    (1 << 15, "2^15"),
+    ((1 << 16) - 1, "2^16-1"),
+    (1 << 16, "2^16"),
+    ((1 << 16) + 1, "2^16+1"),
+    (1 << 17, "2^17"),
+    (1 << 24, "2^24"),
+    (1 << 31, "2^31"),
+];
+const TOPS: &[(u32, &str)] = &[((1u32 << 31) - 1, "2^31-1"), (u32::MAX, "u32::MAX")];
+
+/// Assign ids to the 256 byte tokens and to the products of `merges`, avoiding `taken`.
+/// Byte tokens: byte value, a permutation of 0..256, an anchor + permutation, or counting down
+/// from a top anchor.  Products: dense after the bytes, anchor + index, counting down from a top
+/// anchor, sparse random u32, or "stride 2^16": (k << 16) | (id of a byte that occurs in the
+/// texts), i.e. large ids whose low 16 bits coincide with other tokens' ids.
+/// `dense_only` gives the small dense assignment only.
+pub fn assign_ids(
+    rng: &mut vcommon::Rng,
+    merges: &[(Vec<u8>, Vec<u8>)],
+    hot: &[u8],
+    taken: &[u32],
+    dense_only: bool,
+) -> IdPlan {
+    use std::collections::{HashMap, HashSet};
+    let mut used: HashSet<u32> = taken.iter().copied().collect();
+    let mut perm: Vec<u32> = (0..256).collect();
+    let bmode = if dense_only { rng.below(2) } else { rng.below(5) };
+    if bmode != 0 {
+        rng.shuffle(&mut perm);
+    }
+    let mut byte_ids = [0u32; 256];
+    let bname = match bmode {
+        0 => "byte_value".to_string(),
+        1 => "perm".to_string(),
+        2 | 3 => {
+            let (a, n) = *rng.pick(ANCHORS);
+            for p in perm.iter_mut() {
+                *p += a;
+            }
+            format!("{n}+perm")
+        }
+        _ => {
+            let (a, n) = *rng.pick(TOPS);
+            for p in perm.iter_mut() {
+                *p = a - *p;
+            }
+            format!("{n}-perm")
+        }
+    };
+    for b in 0..256 {
+        let mut id = perm[b];
+        while used.contains(&id) {
+            id = id.wrapping_add(257);
+        }
+        used.insert(id);
+        byte_ids[b] = id;
+    }
+    let pmode = if dense_only { 0 } else { rng.below(8) };
+    let (pa, pan) = *rng.pick(ANCHORS);
+    let (pt, ptn) = *rng.pick(TOPS);
+    let max_byte = *byte_ids.iter().max().unwrap();
+    let pname = match pmode {
+        0 => "dense_after_bytes".to_string(),
+        1 | 2 => format!("{pan}+index"),
+        3 => format!("{ptn}-index"),
+        4 => "sparse_random".to_string(),
+        _ => "stride_2^16|byte_id".to_string(),
+    };
+    let mut prod_id: HashMap<Vec<u8>, u32> = HashMap::new();
+    let mut j: u32 = 0;
+    let product_ids = merges
+        .iter()
+        .map(|(a, b)| {
+            let mut p = a.clone();
+            p.extend_from_slice(b);
+            if let Some(id) = prod_id.get(&p) {
+                return *id;
+            }
+            let mut id = match pmode {
+                0 => {
+                    if max_byte < u32::MAX - 100_000 {
+                        max_byte + 1 + j
+                    } else {
+                        1000 + j
+                    }
+                }
+                1 | 2 => pa + j,
+                3 => pt - j,
+                4 => rng.next_u64() as u32,
+                _ => {
+                    let low = if hot.is_empty() || rng.chance(1, 4) {
+                        byte_ids[rng.below(256)]
+                    } else {
+                        byte_ids[*rng.pick(hot) as usize]
+                    } & 0xffff;
+                    ((1 + rng.below(3) as u32) << 16) | low
+                }
+            };
+            while used.contains(&id) {
+                id = if pmode >= 5 { id.wrapping_add(1 << 16) } else { id.wrapping_add(1) };
+            }
+            used.insert(id);
+            j += 1;
+            prod_id.insert(p, id);
+            id
+        })
+        .collect();
+    IdPlan {
+        scheme: format!("bytes={bname};products={pname}"),
+        byte_ids,
+        product_ids,
+    }
+}
